@@ -4,7 +4,7 @@ import CantoVerif.Model.Replica
 
 One transition = one height of the generated history executed by the four replicas of the real application
 (A continuous, B re-created from its database at every block boundary, C serving reads between blocks, D in another
-OS process): what each replica answered — application hash, digest of all transaction results and block events,
+OS process, E over an on-disk database with its OS process restarted at sampled block boundaries): what each replica answered — application hash, digest of all transaction results and block events,
 and (at sampled heights) digest of the exported application state. `-` marks an observation that was not taken.
 -/
 namespace CV
@@ -13,7 +13,7 @@ namespace Spec
 
 structure Tr where
   height : Nat
-  appHash : List String     -- A, B, C, D
+  appHash : List String     -- A, B, C, D, E
   results : List String
   exports : List String
 
